@@ -504,7 +504,7 @@ func ruleLimit(r *Run) {
 		for _, e := range entriesLoads {
 			assume[e] = constant.MakeInt64(c.entries)
 		}
-		w := &feWalker{Fn: fn, Assume: assume, MaxPath: 2000}
+		w := &feWalker{Fn: fn, Assume: assume, MaxPath: 2000, Inline: inlineHelpers(fn)}
 		stopped := true
 		for _, e := range w.Run() {
 			// the path "stops because of the limit" if it returns false without having processed the record
